@@ -123,6 +123,9 @@ type explorer struct {
 	replacements map[string]value
 	envmsgs  []*envmsg
 	sched    *scheduler
+	lastObs  map[string]string
+	obsKind  map[string]string
+	choices  map[string]string
 	curFn    map[*ssa.Function]bool
 	pathAssum map[string]bool
 	depth    int
@@ -203,13 +206,67 @@ func (ex *explorer) inputNames() []string {
 	for _, in := range ex.inputs {
 		r = append(r, in.name)
 	}
+	r = append(r, ex.obsTerms...)
 	return r
+}
+
+// resolvedEvents substitutes the model values of observed symbolic terms into the event list.
+func (ex *explorer) resolvedEvents() []string {
+	out := make([]string, len(ex.events))
+	for k, e := range ex.events {
+		if strings.Contains(e, "@o!") {
+			for name, v := range ex.lastObs {
+				if strings.Contains(e, "@"+name) {
+					e = replaceWord(e, "@"+name, v)
+				}
+			}
+		}
+		out[k] = e
+	}
+	return out
+}
+
+func replaceWord(s, w, v string) string {
+	for {
+		i := strings.Index(s, w)
+		if i < 0 {
+			return s
+		}
+		j := i + len(w)
+		if j < len(s) && s[j] >= '0' && s[j] <= '9' {
+			// longer name: skip by replacing only exact matches
+			k := i + 1
+			rest := replaceWord(s[k:], w, v)
+			return s[:k] + rest
+		}
+		s = s[:i] + v + s[j:]
+	}
 }
 
 func (ex *explorer) modelOf(m map[string]string) map[string]string {
 	out := map[string]string{}
+	ex.lastObs = map[string]string{}
+	for _, o := range ex.obsTerms {
+		if v, ok := m[o]; ok {
+			if u, ok := modelUint(v); ok {
+				switch {
+				case v == "true" || v == "false":
+					ex.lastObs[o] = v
+				case strings.Contains(ex.obsKind[o], "byte"):
+					ex.lastObs[o] = fmt.Sprintf("%02x", u)
+				default:
+					ex.lastObs[o] = fmt.Sprintf("0x%x", u)
+				}
+			} else {
+				ex.lastObs[o] = fpModelBits(v)
+			}
+		}
+	}
+	for k, v := range ex.choices {
+		out[k] = v
+	}
 	for _, in := range ex.inputs {
-		v, ok := m[in.name]
+		v, ok := m[strings.Trim(in.name, "|")]
 		if !ok {
 			continue
 		}
@@ -272,7 +329,7 @@ func (ex *explorer) recordViolation(fr *frame, kind, label, pos, msg string, mod
 		return
 	}
 	v := &Violation{Label: label, Kind: kind, Pos: pos, Msg: msg, Model: model, Count: 1,
-		Decisions: append([]int64{}, ex.taken...), Events: append([]string{}, ex.events...)}
+		Decisions: append([]int64{}, ex.taken...), Events: ex.resolvedEvents()}
 	if fr != nil {
 		v.Stack = ex.stack(fr)
 	}
@@ -655,6 +712,7 @@ func (i *interpreter) runPath(harness *ssa.Function, prefix []int64) (pending []
 	ex.decls, ex.inputs, ex.nsym, ex.ndef = nil, nil, nil, 0
 	ex.steps, ex.events, ex.obsTerms, ex.pending = 0, nil, nil, nil
 	ex.replacements = map[string]value{}
+	ex.lastObs, ex.obsKind, ex.choices = nil, map[string]string{}, map[string]string{}
 	ex.envmsgs = nil
 	ex.sched = nil
 	ex.curFn = map[*ssa.Function]bool{}
@@ -697,6 +755,7 @@ func (i *interpreter) runPath(harness *ssa.Function, prefix []int64) (pending []
 		call(i, nil, token.NoPos, harness, nil)
 	}()
 	ex.logging = false
+	ex.shutdownSched()
 	ex.rollback()
 	res := ex.res
 	res.mu.Lock()
@@ -726,7 +785,7 @@ func (i *interpreter) runPath(harness *ssa.Function, prefix []int64) (pending []
 	res.mu.Unlock()
 	if wantSample {
 		_, m := ex.check("", true)
-		s := &PathSample{Decisions: append([]int64{}, ex.taken...), Model: m, Events: append([]string{}, ex.events...), End: end}
+		s := &PathSample{Decisions: append([]int64{}, ex.taken...), Model: m, Events: ex.resolvedEvents(), End: end}
 		res.mu.Lock()
 		for k := range res.Samples {
 			if res.Samples[k] == nil {
@@ -775,4 +834,28 @@ func panicText(i *interpreter, v value) string {
 		}
 	}
 	return toString(v)
+}
+
+// fpModelBits renders an FP model value such as (fp #b0 #b... #x...) as f<16 hex digits>.
+func fpModelBits(v string) string {
+	toks := tokenizeSexp(v)
+	if len(toks) >= 5 && toks[0] == "(" && toks[1] == "fp" {
+		s, _ := modelUint(toks[2])
+		e, _ := modelUint(toks[3])
+		m, _ := modelUint(toks[4])
+		return fmt.Sprintf("f%016x", s<<63|e<<52|m)
+	}
+	switch {
+	case strings.Contains(v, "+zero"):
+		return "f0000000000000000"
+	case strings.Contains(v, "-zero"):
+		return "f8000000000000000"
+	case strings.Contains(v, "+oo"):
+		return "f7ff0000000000000"
+	case strings.Contains(v, "-oo"):
+		return "ffff0000000000000"
+	case strings.Contains(v, "NaN"):
+		return "fNaN"
+	}
+	return "f?" + v
 }
